@@ -248,6 +248,17 @@ def random_steps(rng, n):
             if n >= 9 and rng.random() < 0.5:
                 a = 8 * rng.randint(1, n // 8)      # byte-aligned start: validity bitmaps are read per byte
             b = rng.randint(a, n)
+            if rng.random() < 0.3:
+                # any step, either sign, with present / omitted / negative / over-long ends (python's slice semantics
+                # are the oracle): spans that are not a multiple of the step, start above stop for negative steps
+                stp = rng.choice([2, 3, -1, -2, -2, -3, -4, 5])
+                ends = [None, None] + list(range(-n - 1, n + 2))
+                sa, sb = rng.choice(ends), rng.choice(ends)
+                if stp < 0 and sa is not None and sb is not None and rng.random() < 0.6:
+                    sa, sb = max(sa, sb), min(sa, sb)
+                steps.append(['slice', sa, sb, stp])
+                n = len(range(n)[sa:sb:stp])
+                continue
             step = rng.choice([None, None, None, 2, -1])
             if step is None and rng.random() < 0.25:
                 # counted from the end, open or over-long stop (what `tail`-like code and "whole array" tests see)
